@@ -10,7 +10,7 @@
           granularity: outer loop (no server held) and transaction loop (server
           held), the [plugin_output] variable, the extended-protocol buffer and the
           client's prepared-statement map.
-    The code modelled is the tree AFTER the three repairs e792aa5 / bd15113 / 32c91f8.
+    The code modelled is the tree AFTER the repairs e792aa5 / bd15113 / 32c91f8 / a7d476c.
     Proofs are in Proofs.v, the PostgreSQL-side specification in Spec.v. *)
 From Coq Require Import ZArith NArith List Bool Lia.
 Import ListNotations.
@@ -485,15 +485,19 @@ Definition is_sync (m : msg) : bool := match m with MS _ _ _ => true | _ => fals
 Definition pool_ok_of (m : msg) : bool :=
   match m with MQ _ _ _ p _ | MS _ p _ | MH _ p => p | _ => true end.
 
-(** Outer loop after the match: the check on plugin results acts on Deny only; then the
-    checkout; then the message is handled by the transaction loop. *)
+(** Outer loop after the match: the check on plugin results acts on Deny for every
+    message and (since a7d476c) on Intercept for a Sync, both BEFORE the checkout; then
+    the checkout; then the message is handled by the transaction loop. *)
+Definition outer_checkout (c : cfg) (s : state) (m : msg) : state * list event :=
+  if pool_ok_of m then
+    let '(s', ev) := step_inner c (set_held s true false) m in (s', EvCheckout :: ev)
+  else ((if is_sync m then set_ebuf s [] else s), [EvErr EPool]).
+
 Definition outer_rest (c : cfg) (s : state) (m : msg) : state * list event :=
   match pout s with
   | Deny t => (consume s, [EvErr (EPlugin t)])
-  | _ =>
-      if pool_ok_of m then
-        let '(s', ev) := step_inner c (set_held s true false) m in (s', EvCheckout :: ev)
-      else ((if is_sync m then set_ebuf s [] else s), [EvErr EPool])   (* plugin_output is kept *)
+  | Intercept t => if is_sync m then (consume s, [EvIntercept t]) else outer_checkout c s m
+  | Allow => outer_checkout c s m
   end.
 
 (** Outer loop (no server held). *)
